@@ -60,66 +60,80 @@ func c06(args []string) error {
 		return err
 	}
 	defer ev.Close()
+	panics, err := newEvents(args[1] + "/c06.panics.ndjson")
+	if err != nil {
+		return err
+	}
+	defer panics.Close()
 	rng := rand.New(rand.NewSource(int64(seed)))
 	trips, accepted := 0, 0
 	seen := map[string]bool{}
 	for _, r := range rows {
 		for k := 0; k < nrender; k++ {
-			ro := renderOpts{table: tokenTables[k%len(tokenTables)]}
-			if k >= len(tokenTables) {
-				ro.rng, ro.spaces, ro.escape = rng, rng.Intn(2) == 0, rng.Intn(3) == 0
-			}
-			text := r.ast.Text(ro)
-			po := c06Opts[(k+r.b)%len(c06Opts)]
-			o, perr := geojson.Parse(text, &po)
-			if perr != nil {
-				continue // C07 judges acceptance
-			}
-			accepted++
-			out1 := o.JSON()
-			key := fmt.Sprint(k%len(tokenTables), (k+r.b)%len(c06Opts), string(r.rawAST))
-			if seen[key] {
-				continue
-			}
-			seen[key] = true
-			e := obj{"op": "rt", "doc": r.rawAST, "b": r.b, "opts": (k + r.b) % len(c06Opts), "table": k % len(tokenTables), "text": clip(text, 300), "output": clip(out1, 400)}
-			e["valid"] = json.Valid([]byte(out1))
-			outAST, terr := tokenize(out1, ro.table)
-			if terr != nil {
-				e["valid"] = false
-				outAST = AST{Tag: "z"}
-			}
-			e["out"] = outAST.JSON()
-			e["members"] = []interface{}{"none"}
-			if ms := o.Members(); ms != "" {
-				if mast, merr := tokenize(ms, ro.table); merr == nil {
-					e["members"] = mast.JSON()
-				} else {
-					e["members"] = []interface{}{"s", "unparsable: " + ms}
+			k := k
+			text := ""
+			func() {
+				defer func() { // a panic anywhere in Parse -> JSON -> Parse is reported with the text, not as a dead harness
+					if rec := recover(); rec != nil {
+						panics.Emit(obj{"op": "panic", "text": clip(text, 400), "msg": fmt.Sprint(rec)})
+					}
+				}()
+				ro := renderOpts{table: tokenTables[k%len(tokenTables)]}
+				if k >= len(tokenTables) {
+					ro.rng, ro.spaces, ro.escape = rng, rng.Intn(2) == 0, rng.Intn(3) == 0
 				}
-			}
-			z, isPoint := geojson.IsPoint(o)
-			e["ispoint"] = isPoint
-			e["z"] = []interface{}{"n", -1}
-			for k, tv := range ro.table {
-				if math.Float64bits(tv) == math.Float64bits(z) {
-					e["z"] = []interface{}{"n", k}
-					break
+				text = r.ast.Text(ro)
+				po := c06Opts[(k+r.b)%len(c06Opts)]
+				o, perr := geojson.Parse(text, &po)
+				if perr != nil {
+					return // C07 judges acceptance
 				}
-			}
-			if math.IsNaN(z) {
-				e["z"] = []interface{}{"z"}
-			}
-			o2, perr2 := geojson.Parse(out1, &po)
-			e["reparsed"] = perr2 == nil
-			e["samekind"], e["fix"], e["sameans"] = false, false, false
-			if perr2 == nil {
-				e["samekind"] = reflect.TypeOf(o) == reflect.TypeOf(o2)
-				e["fix"] = o2.JSON() == out1
-				e["sameans"] = fmt.Sprint(answers(o, ro.table)) == fmt.Sprint(answers(o2, ro.table))
-			}
-			ev.Emit(e)
-			trips++
+				accepted++
+				out1 := o.JSON()
+				key := fmt.Sprint(k%len(tokenTables), (k+r.b)%len(c06Opts), string(r.rawAST))
+				if seen[key] {
+					return
+				}
+				seen[key] = true
+				e := obj{"op": "rt", "doc": r.rawAST, "b": r.b, "opts": (k + r.b) % len(c06Opts), "table": k % len(tokenTables), "text": clip(text, 300), "output": clip(out1, 400)}
+				e["valid"] = json.Valid([]byte(out1))
+				outAST, terr := tokenize(out1, ro.table)
+				if terr != nil {
+					e["valid"] = false
+					outAST = AST{Tag: "z"}
+				}
+				e["out"] = outAST.JSON()
+				e["members"] = []interface{}{"none"}
+				if ms := o.Members(); ms != "" {
+					if mast, merr := tokenize(ms, ro.table); merr == nil {
+						e["members"] = mast.JSON()
+					} else {
+						e["members"] = []interface{}{"s", "unparsable: " + ms}
+					}
+				}
+				z, isPoint := geojson.IsPoint(o)
+				e["ispoint"] = isPoint
+				e["z"] = []interface{}{"n", -1}
+				for k, tv := range ro.table {
+					if math.Float64bits(tv) == math.Float64bits(z) {
+						e["z"] = []interface{}{"n", k}
+						break
+					}
+				}
+				if math.IsNaN(z) {
+					e["z"] = []interface{}{"z"}
+				}
+				o2, perr2 := geojson.Parse(out1, &po)
+				e["reparsed"] = perr2 == nil
+				e["samekind"], e["fix"], e["sameans"] = false, false, false
+				if perr2 == nil {
+					e["samekind"] = reflect.TypeOf(o) == reflect.TypeOf(o2)
+					e["fix"] = o2.JSON() == out1
+					e["sameans"] = fmt.Sprint(answers(o, ro.table)) == fmt.Sprint(answers(o2, ro.table))
+				}
+				ev.Emit(e)
+				trips++
+			}()
 		}
 	}
 	printJSON(obj{"docs": len(rows), "parses_accepted": accepted, "round_trips_recorded": trips, "events": ev.N})
